@@ -108,7 +108,9 @@ class EngineBase(metaclass=ABCMeta):
             status = "Crossed right interface!"
             success = True
             stop = True
-        if path.length == path.maxlen:
+        if path.length == path.maxlen and not success:
+            # a path that reaches an interface with its last allowed frame
+            # is complete; only an unfinished one has exceeded the limit.
             status = "Max. path length exceeded!"
             success = False
             stop = True
